@@ -426,6 +426,37 @@ example : extract true true
     = some ([⟨1/4, 1/4, 5/2, 1/4⟩, ⟨3/4, 1/4, 5/2, 1/4⟩, ⟨3/2, 1/2, 4, 1/2⟩, ⟨1/2, 1/2, 4, 1/2⟩], false) := by
   decide +kernel
 
+/-! ### the extraction function handed any list of groups (strengthening round H) -/
+
+/-- a group of the per-kymograph split `_tracks_by_kymo()` lies on a single kymograph: the refusal of mixed groups never
+    fires behind `fit_binding_times` -/
+theorem extraction_by_kymo_never_mixed (tracks G : List Track) (hG : G ∈ tracksByKymo tracks) : mixed G = false :=
+  tracksByKymo_not_mixed tracks G hG
+
+/-- handed the per-kymograph split, `_extract_dwelltime_data_from_groups` is the extraction the theorems above speak
+    about (same rows, same flag, same exception) -/
+theorem extraction_groups_by_kymo (excl om : Bool) (tracks : List Track) :
+    extractGroups excl om (tracksByKymo tracks)
+      = match firstError excl om (tracksByKymo tracks) with
+        | some e => .error e
+        | none => match extract excl om tracks with
+          | none => .error "RuntimeError"
+          | some r => .ok r :=
+  extractGroups_tracksByKymo excl om tracks
+
+/-- a list of groups one of which lies on two or more kymographs is never answered with a table of rows: for such a
+    group "the kymograph's total duration" is not defined and the function refuses -/
+theorem extraction_refuses_mixed_group (excl om : Bool) (groups : List (List Track))
+    (h : ∃ G ∈ groups, mixed G = true) : ∃ e, extractGroups excl om groups = .error e :=
+  extractGroups_refuses_mixed excl om groups h
+
+example : mixed [⟨0, 10, 1/4, [1, 2], some (1/4)⟩, ⟨1, 8, 1/2, [1, 3], some (1/2)⟩] = true
+    ∧ extractGroups false false [[⟨0, 10, 1/4, [1, 2], some (1/4)⟩], [],
+        [⟨0, 10, 1/4, [1, 2], some (1/4)⟩, ⟨1, 8, 1/2, [1, 3], some (1/2)⟩]] = .error "ValueError"
+    ∧ extractGroups false true [[⟨0, 10, 1/4, [1, 2], none⟩], [], [⟨1, 8, 1/2, [1, 3], none⟩], [⟨0, 10, 1/4, [2, 5], none⟩]]
+      = .ok ([⟨1/4, 1/4, 5/2, 1/4⟩, ⟨1, 1, 4, 1/2⟩, ⟨3/4, 3/4, 5/2, 1/4⟩], false) := by
+  decide +kernel
+
 /-! ### `fit_binding_times`: options left out, error branches, what reaches the model -/
 
 /-- options left out (`None`): `fit_binding_times(n, exclude_ambiguous_dwells=…)` behaves exactly like
